@@ -198,10 +198,144 @@ theorem populateStd_spin (N : Nat) (m : Option EF) (u : Nat → Nat → LU) (bs 
     obtain ⟨s, hs', ha, hu⟩ := ih (stdStep N m u st b) (fun b' hb' => hs b' (by simp [hb'])) (by omega)
     exact ⟨s, hs', by omega, by simp only [List.length_cons]; omega⟩
 
+
+/-! ### exact accounting of the standard branch: which batches accept, and how many points -/
+
+/-- Boolean form of `Good` (decidable on concrete streams) -/
+def isGood (m : Option EF) (b : Batch) : Bool :=
+  !(b.items.filter (keep m)).isEmpty && (EF.maxNp ((b.items.filter (keep m)).map (·.logw))).isFinite
+
+theorem isGood_iff (m : Option EF) (b : Batch) : isGood m b = true ↔ Good m b := by
+  unfold isGood Good
+  constructor
+  · intro h
+    simp only [Bool.and_eq_true, Bool.not_eq_true', List.isEmpty_eq_false_iff] at h
+    refine ⟨h.1, ?_⟩
+    cases hm : EF.maxNp ((b.items.filter (keep m)).map (·.logw)) with
+    | fin c => exact ⟨c, rfl⟩
+    | nan => rw [hm] at h; simp [EF.isFinite] at h
+    | ninf => rw [hm] at h; simp [EF.isFinite] at h
+    | pinf => rw [hm] at h; simp [EF.isFinite] at h
+  · rintro ⟨hne, c, hc⟩
+    simp only [Bool.and_eq_true, Bool.not_eq_true', List.isEmpty_eq_false_iff]
+    exact ⟨hne, by rw [hc]; rfl⟩
+
+/-- number of points the loop body accepts from batch `b` when it is the `calls`-th non-empty batch -/
+def batchAcc (m : Option EF) (u : Nat → Nat → LU) (calls : Nat) (b : Batch) : Nat :=
+  if (b.items.filter (keep m)).isEmpty then 0
+  else (acceptIds (EF.maxNp ((b.items.filter (keep m)).map (·.logw))) (u calls) (b.items.filter (keep m)) 0).length
+
+/-- does batch `b` consume a call of `np.random.rand` (it does unless it is empty after truncation) -/
+def batchCalls (m : Option EF) (b : Batch) : Nat := if (b.items.filter (keep m)).isEmpty then 0 else 1
+
+/-- total number of points a stream would accept, the `calls`-th `rand` call being the next one -/
+def stdAccepted (m : Option EF) (u : Nat → Nat → LU) : List Batch → Nat → Nat
+  | [], _ => 0
+  | b :: bs, calls => batchAcc m u calls b + stdAccepted m u bs (calls + batchCalls m b)
+
+theorem stdStep_nAcc_eq (N : Nat) (m : Option EF) (u : Nat → Nat → LU) (st : StdState) (b : Batch) :
+    (stdStep N m u st b).nAcc = st.nAcc + batchAcc m u st.calls b := by
+  unfold stdStep batchAcc; simp only []; split <;> simp
+
+theorem stdStep_calls_eq (N : Nat) (m : Option EF) (u : Nat → Nat → LU) (st : StdState) (b : Batch) :
+    (stdStep N m u st b).calls = st.calls + batchCalls m b := by
+  unfold stdStep batchCalls; simp only []; split <;> simp
+
+theorem max2_eq_ninf (x y : EF) (h : EF.max2 x y = .ninf) : x = .ninf ∧ y = .ninf := by
+  cases x <;> cases y <;> simp [EF.max2, EF.gt] at h ⊢
+  split at h <;> cases h
+
+theorem foldl_max2_eq_ninf (xs : List EF) (x : EF) (h : xs.foldl EF.max2 x = .ninf) :
+    x = .ninf ∧ ∀ y ∈ xs, y = .ninf := by
+  induction xs generalizing x with
+  | nil => exact ⟨h, by simp⟩
+  | cons y ys ih =>
+    obtain ⟨h1, h2⟩ := ih (EF.max2 x y) h
+    obtain ⟨hx, hy⟩ := max2_eq_ninf x y h1
+    exact ⟨hx, by intro z hz; rcases List.mem_cons.mp hz with rfl | hz; exact hy; exact h2 z hz⟩
+
+theorem acceptIds_pinf (u : Nat → LU) (l : List Item) (j : Nat) : acceptIds .pinf u l j = [] := by
+  induction l generalizing j with
+  | nil => rfl
+  | cons a r ih =>
+    unfold acceptIds
+    have : accLU (EF.sub a.logw .pinf) (u j) = false := by cases a.logw <;> simp [EF.sub, accLU]
+    rw [this]; simp [ih]
+
+/-- a Good batch accepts at least one point -/
+theorem batchAcc_pos (m : Option EF) (u : Nat → Nat → LU) (calls : Nat) (b : Batch) (hg : Good m b) :
+    1 ≤ batchAcc m u calls b := by
+  have := stdStep_good 0 m u { calls := calls } b hg
+  rw [stdStep_nAcc_eq] at this
+  simpa using this
+
+/-- a batch that is not Good accepts NOTHING: empty after truncation, or a maximum weight that is NaN
+(one NaN weight suffices), −∞ or +∞ -/
+theorem batchAcc_zero (m : Option EF) (u : Nat → Nat → LU) (calls : Nat) (b : Batch) (hg : ¬ Good m b) :
+    batchAcc m u calls b = 0 := by
+  unfold batchAcc
+  cases hx : b.items.filter (keep m) with
+  | nil => simp
+  | cons a r =>
+    simp only [List.isEmpty_cons, Bool.false_eq_true, if_false]
+    cases hm : EF.maxNp ((a :: r).map (·.logw)) with
+    | fin c => exact absurd ⟨by rw [hx]; simp, c, by rw [hx]; exact hm⟩ hg
+    | nan => rw [acceptIds_nan]; rfl
+    | pinf => rw [acceptIds_pinf]; rfl
+    | ninf =>
+      have hall : ∀ it ∈ a :: r, it.logw = .ninf := by
+        simp only [List.map_cons, EF.maxNp] at hm
+        obtain ⟨h1, h2⟩ := foldl_max2_eq_ninf _ _ hm
+        intro it hit
+        rcases List.mem_cons.mp hit with rfl | hr
+        · exact h1
+        · exact h2 _ (List.mem_map.mpr ⟨it, hr, rfl⟩)
+      rw [acceptIds_all_ninf _ _ _ hall]; rfl
+
+/-- exact termination criterion of the standard branch -/
+theorem populateStd_isDone_iff (N : Nat) (m : Option EF) (u : Nat → Nat → LU) (bs : List Batch) (st : StdState) :
+    (populateStd N m u bs st).isDone = true ↔ N ≤ st.nAcc + stdAccepted m u bs st.calls := by
+  induction bs generalizing st with
+  | nil =>
+    unfold populateStd stdAccepted
+    by_cases h : N ≤ st.nAcc <;> simp [h, Outcome.isDone]
+  | cons b bs ih =>
+    unfold populateStd stdAccepted
+    by_cases h : N ≤ st.nAcc
+    · simp only [h, if_true, Outcome.isDone, true_iff]; omega
+    · simp only [h, if_false]
+      rw [ih, stdStep_nAcc_eq, stdStep_calls_eq]
+      omega
+
+theorem countGood_le_stdAccepted (m : Option EF) (u : Nat → Nat → LU) (bs : List Batch) (calls : Nat) :
+    bs.countP (isGood m) ≤ stdAccepted m u bs calls := by
+  induction bs generalizing calls with
+  | nil => simp [stdAccepted]
+  | cons b bs ih =>
+    unfold stdAccepted
+    rw [List.countP_cons]
+    have := ih (calls + batchCalls m b)
+    by_cases hg : isGood m b = true
+    · have := batchAcc_pos m u calls b ((isGood_iff m b).mp hg)
+      simp only [hg, if_true]; omega
+    · simp only [hg, Bool.false_eq_true, if_false]; omega
+
+theorem stdAccepted_zero (m : Option EF) (u : Nat → Nat → LU) (bs : List Batch) (calls : Nat)
+    (h : ∀ b ∈ bs, isGood m b = false) : stdAccepted m u bs calls = 0 := by
+  induction bs generalizing calls with
+  | nil => rfl
+  | cons b bs ih =>
+    unfold stdAccepted
+    have hb : ¬ Good m b := by
+      intro hg; have := (isGood_iff m b).mpr hg; rw [h b (by simp)] at this; cases this
+    rw [batchAcc_zero m u calls b hb, ih _ (fun b' hb' => h b' (by simp [hb']))]
+
 /-! ### accumulate branch -/
 
 /-- hypothesis of the bound: every batch proposes at least one point and at least one survives the truncation -/
 def NonEmpty (m : Option EF) (b : Batch) : Prop := b.items.filter (keep m) ≠ [] ∧ 1 ≤ b.drawn
+
+instance (m : Option EF) (b : Batch) : Decidable (NonEmpty m b) := by unfold NonEmpty; exact inferInstance
 
 theorem accStep_used (N : Nat) (m : Option EF) (maxS : Nat) (u : Nat → Nat → LU) (st : AccState) (b : Batch) :
     (accStep N m maxS u st b).1.used = st.used + 1 := by
